@@ -4,12 +4,13 @@ import PySMT.Proofs.C18Search
 -/
 namespace PySMT.Opt
 
-/-- a concrete oracle over the models `0 … 5` of `x` with objective `x` -/
-def exOracle (obj : Nat → Int → Int) : Oracle Int := fun _ cs =>
-  ([0, 1, 2, 3, 4, 5] : List Int).find? (fun m => cs.all (fun c => c.holds obj m))
+/-- a concrete oracle over the models `0 … 5` of one variable, for an arbitrary valuation of the
+    goal terms: the first model that satisfies all constraints -/
+def exOracle (val : Nat → Int → Val) : Oracle Int := fun _ cs =>
+  ([0, 1, 2, 3, 4, 5] : List Int).find? (fun m => cs.all (fun c => c.holds val m))
 
-theorem exOracle_spec (obj : Nat → Int → Int) :
-    OracleSpec (fun m : Int => m ∈ ([0, 1, 2, 3, 4, 5] : List Int)) obj (exOracle obj) := by
+theorem exOracle_spec (val : Nat → Int → Val) :
+    OracleSpec (fun m : Int => m ∈ ([0, 1, 2, 3, 4, 5] : List Int)) val (exOracle val) := by
   intro n cs
   refine ⟨?_, ?_⟩
   · intro m hm
@@ -19,5 +20,11 @@ theorem exOracle_spec (obj : Nat → Int → Int) :
   · intro hn m hm hall
     have := List.find?_eq_none.1 hn m hm
     exact this (List.all_eq_true.2 hall)
+
+/-- integer goal terms -/
+def intVal (f : Nat → Int → Int) : Nat → Int → Val := fun i m => .int (f i m)
+
+/-- a 3-bit goal term: the variable itself as a bit-vector -/
+def bv3Val : Nat → Int → Val := fun _ m => .bv 3 (BitVec.ofInt 3 m)
 
 end PySMT.Opt
